@@ -115,9 +115,9 @@ def _splice_hints(body, hints, unit_id):
         nth = h[3] if len(h) > 3 else None
         ms = list(re.finditer(anchor, body, re.S))
         if nth is None:
-            if len(ms) != 1:
-                raise ExtractError('%s: hint anchor /%s/ matched %d times (need 1)' % (unit_id, anchor, len(ms)))
-            m = ms[0]
+            if len(ms) == 0:
+                raise ExtractError('%s: hint anchor /%s/ not found' % (unit_id, anchor))
+            m = ms[0]      # several matches: the first one (ghost text only; a misplaced hint cannot make a proof pass wrongly)
         else:
             if len(ms) <= nth:
                 raise ExtractError('%s: hint anchor /%s/ occurrence %d not found' % (unit_id, anchor, nth))
@@ -194,6 +194,7 @@ def build_unit(unit, log):
     contract = unit.get('contract', '').strip('\n')
 
     if unit.get('mode') == 'contract_only':
+        sig = re.sub(r'\(\s*mut self\b', '(self', sig, count=1)
         # callee proved in another group: only its contract is visible here (modular verification)
         body = '{ unimplemented!() }'
         text = '#[verifier::external_body]\n' + sig + '\n' + contract + '\n' + body
